@@ -331,6 +331,20 @@ def check_return(ctx, cfg, seed_row, point_row, t_ret, what):
     terr = abs(best[0] - t_ret)
     calt = _calibration()["O3t"]["symplectic" if cfg["method"] == "symplectic" else "fixed"]
     ttol = calt["floor"] + calt["K"] * cfg["dt"] ** calt["r"]
+    # geometry of the crossing: the library locates the crossing time by LINEAR interpolation of the section coordinate
+    # inside the step, whose error is <= (|f''|/|f'|) dt^2 / 8 to leading order (f = section coordinate along the flow) and
+    # is unbounded as the crossing becomes tangent; the state error follows as |velocity| times that time error
+    zc = cmref.z_of(best[1])
+    v = ham.rhs(0.0, zc)
+    idx6 = cmref.IDX[sec]
+    f1 = float(v[idx6])
+    f2 = float((ham.rhs(0.0, zc + dt * v)[idx6] - f1) / dt)
+    dt_lin = abs(f2) / max(abs(f1), 1e-12) * dt * dt / 8.0
+    ttol += 4.0 * dt_lin
+    tol += 4.0 * float(np.max(np.abs(v))) * dt_lin
+    if dt_lin > 0.25 * dt:
+        ctx.probe("o3_dont_care_tangent")
+        return
     if err > tol or terr > ttol:
         raise Violation("C14/O3-not-the-return", f"{what}: seed {seed_row.tolist()} -> point {point_row.tolist()} at t={t_ret:.6f}; reference first "
                                                  f"return in the documented direction is {best[1].tolist()} at t={best[0]:.6f} "
